@@ -73,13 +73,15 @@ def hoist_tests(r, body, prob=0.6):
     return body
 
 
-def test_before_atom(c):
-    """the clause has a negated atom / = / != in front of a positive atom"""
+def recursive_tba(prog, c):
+    """the clause has a negated atom / = / != in front of a positive atom of a predicate of the
+    head's own recursive component (the atom the engine's delta rules mark)"""
+    comp = next((set(l) for l in prog["layers"] if c["head"]["p"] in l), {c["head"]["p"]})
     seen = False
     for l in c["body"]:
         if l[0] != "atom":
             seen = True
-        elif seen:
+        elif seen and l[1]["p"] in comp:
             return True
     return False
 
@@ -766,6 +768,8 @@ def need_complete(prog, opts, mode):
     return opts["max_proofs"] == 1
 
 
+NCYCLIC_QUICK = 60
+
 CODES = {2: "a returned proof that is not flagged partial is not a valid derivation of the goal",
          3: "no complete valid proof returned for a fact of the evaluated store"}
 
@@ -842,7 +846,8 @@ def evaluate(ck, progs, optss, origin, ref_every=4):
     ck.log("go side done: %d programs" % len(progs))
     terms, where = [], []
     st = {"stage": {}, "goals": 0, "proofs": {"posthoc": 0, "recorded": 0}, "noproof": {"posthoc": 0, "recorded": 0},
-          "nodes": 0, "max_depth": 0, "ids": 0, "ref_runs": 0, "rule_mismatch": 0, "store_diff": 0, "partial_proofs": 0}
+          "nodes": 0, "max_depth": 0, "ids": 0, "ref_runs": 0, "rule_mismatch": 0, "store_diff": 0, "partial_proofs": 0,
+          "tba_nodes": {"posthoc": 0, "recorded": 0}}
     for i, o in enumerate(outs):
         rep0 = {"property": "C15", "origin": origin[i], "program": progs[i], "opts": optss[i], "src": go_cases[i]["src"],
                 "pre": go_cases[i]["pre"]}
@@ -882,6 +887,13 @@ def evaluate(ck, progs, optss, origin, ref_every=4):
                     if not g[mode]["proofs"]:
                         st["noproof"][mode] += 1
                 nn, dd = tree_stats(goals, mode)
+                tba = set(k for k, c in enumerate(progs[i]["clauses"]) if recursive_tba(progs[i], c))
+                if tba:
+                    cnt = [0]
+                    for g in goals:
+                        for p in g[mode]["proofs"]:
+                            walk(p, lambda n: cnt.__setitem__(0, cnt[0] + (1 if n["k"] == "derived" and n["ri"] in tba else 0)))
+                    st["tba_nodes"][mode] += cnt[0]
                 st["nodes"] += nn
                 st["max_depth"] = max(st["max_depth"], dd)
             ref = (not progs[i].get("transforms")) and i % ref_every == 0
@@ -924,7 +936,17 @@ def run(ck):
                       "modes": modes})
         origin.append("random")
     nrandom = len(progs) - ncorpus
+    # cyclic programs (every clause order; tests in front of recursive atoms), always both modes
+    # unless an initial fact of a ring predicate is the entry (N80)
+    for k in range(ck.n(NCYCLIC_QUICK, 1500)):
+        p = cyclic_program(rng)
+        progs.append(p)
+        optss.append({"max_proofs": rng.choice([1, 1, 1, 2, 3]), "max_depth": 0,
+                      "modes": ["posthoc"] if "idb-init-recursive" in p["features"] else ["posthoc", "recorded"]})
+        origin.append("cyclic")
+    ncyclic = len(progs) - ncorpus - nrandom
     nexh = 0
+    exh_blocks = {}
     if not ck.quick:
         for p in exhaustive_programs():
             progs.append(p)
@@ -934,6 +956,23 @@ def run(ck):
                           "modes": ["posthoc"] if rec3 else ["posthoc", "recorded"]})
             origin.append("exhaustive")
             nexh += 1
+        exh_blocks["two-rule schema"] = nexh
+        for nm, gen in (("ring2 all clause orders", lambda: ring_orders(2)), ("ring3 all clause orders", lambda: ring_orders(3)),
+                        ("ring4 all clause orders", lambda: ring_orders(4)), ("ring structures", ring_structures),
+                        ("guarded recursion", guarded_recursion)):
+            k = 0
+            for p in gen():
+                progs.append(p)
+                # ring4 / ring structures: post-hoc at both proof limits over the block; recorded mode on
+                # every 4th program (the recorded builder has no cut bookkeeping; clause orders of the
+                # engine are covered by ring2 / ring3 / guarded recursion in both modes)
+                big = nm in ("ring4 all clause orders", "ring structures")
+                optss.append({"max_proofs": 1 + k % 2, "max_depth": 0,
+                              "modes": ["posthoc"] if big and k % 4 >= 2 else ["posthoc", "recorded"]})
+                origin.append("exhaustive:" + nm)
+                k += 1
+            exh_blocks[nm] = k
+            nexh += k
     outs, go_cases, where, verdicts, st = evaluate(ck, progs, optss, origin, ref_every=ck.n(4, 8))
     vc = {}
     nref_bad = 0
@@ -959,6 +998,11 @@ def run(ck):
                       "why_violation": "Props/C15.v check_proof_exact: check_proof accepts exactly the valid acyclic "
                                        "derivations; proof_exists: every fact of the least model has one"})
     probes(ck)
+    n_tba_progs = sum(1 for p in progs if any(recursive_tba(p, c) for c in p["clauses"]))
+    if st["tba_nodes"]["recorded"] < 20 and len(progs) >= 100:
+        ck.violation({"property": "C15", "kind": "generator: (almost) no recorded proof node comes from a recursive rule with a "
+                      "test in front of the recursive atom", "no_longer_checks": "correspondence Run.C15.judge (input "
+                      "distribution broken: seeded C15-2 class)", "count": st["tba_nodes"]}, "no-failing-input-found")
     feats = {}
     for p in progs:
         for f in p.get("features", ["corpus"]):
@@ -977,11 +1021,25 @@ def run(ck):
            "proof_nodes": st["nodes"], "max_proof_height": st["max_depth"], "identifiers_checked": st["ids"],
            "reference_explainer_runs": st["ref_runs"], "distinct_nontrivial": len(nontrivial),
            "rule": "programs through parse -> AnalyzeOneUnit -> EvalProgram (without / with MemoryRecorder) -> Explain and "
-                   "BuildFromRecording for every stored fact (corpus %d, random %d, exhaustive %d); evaluations = (goal, mode) "
-                   "explanations judged by check_proof in Coq; non-trivial = recursion, negation, binding equality, initial "
-                   "fact of a derived predicate or let-transform present; distinct by program text" % (ncorpus, nrandom, nexh),
+                   "BuildFromRecording for every stored fact (corpus %d, random %d, cyclic %d, exhaustive %d); evaluations = "
+                   "(goal, mode) explanations judged by check_proof in Coq against the rules of the PROGRAM (a node whose rule "
+                   "text is not one of ProgramInfo.Rules has no rule: rejected); non-trivial = recursion, negation, binding "
+                   "equality, initial fact of a derived predicate or let-transform present; distinct by program text"
+                   % (ncorpus, nrandom, ncyclic, nexh),
+           "cyclic_stream": "rings of 2-4 mutually recursive predicates with chords, 1-2 entries, goal rules over 2-3 ring members, "
+                            "guards with a test in front of the recursive atom, walks along a cyclic graph; all clauses shuffled",
+           "test_before_atom": {"programs_with_such_a_recursive_rule": n_tba_progs,
+                                "recorded_proof_nodes_of_such_rules": st["tba_nodes"]["recorded"],
+                                "posthoc_proof_nodes_of_such_rules": st["tba_nodes"]["posthoc"]},
+           "exhaustive_blocks": exh_blocks,
            "exhaustive": nexh > 0,
-           "exhaustive_scope": ("all stratifiable safe programs made of the seed rule p2(X) :- p1(X), one rule for p2(X) and one for "
+           "exhaustive_scope": ("(1) every clause order (all permutations) of the ring programs p1 :- p2, .., pn :- p1, p1 :- p0, "
+                                "g :- p_i, p_j for n = 2, 3, 4 and every ordered pair i != j; (2) every program over three ring "
+                                "predicates with one or two single-atom rules each (bodies p0..p3, ordered), a cycle through >= 2 "
+                                "predicates, and a goal rule over every ordered pair; (3) every recursive rule p2 :- A, T, B with one "
+                                "of 9 tests T (!=, =, negated atoms, binding =) between the binding atom A and the recursive atom B, "
+                                "both clause orders, base facts needing several incremental rounds; MaxProofs 1 and 2 alternate; "
+                                "(4) " if nexh else "") + ("all stratifiable safe programs made of the seed rule p2(X) :- p1(X), one rule for p2(X) and one for "
                                 "p3(X) with bodies of <=2 literals (7 positive atoms, 5 negated atoms, X = Y, X != Y) over 2 "
                                 "extensional and 2 derived predicates, 2 variables, fixed base facts incl. an initial fact of the "
                                 "derived, possibly recursive p3; every stored fact explained post-hoc (recorded mode too when p3 "
